@@ -403,6 +403,51 @@ def reextent_rules(rep, mod, results, tagD):
             rep.ok(key + "#" + tagD, "R06.reshape", None)
 
 
+def assign_rules(rep, mod, results, tagD, D):
+    """C06 (assign clause): a.assign(first, last) may keep the storage and copy in place only on paths on which the requested contents have the
+    array's extents: the number of items equals size(), and for D > 1 the extents of the items equal the extents of the array's own items (or the range
+    is empty).  On every other path new storage with the requested extents is built."""
+    n = "assign_iters"
+    if n not in results:
+        return
+    key = "R06.assign@%s" % n
+    bad = []
+    inplace = 0
+    rebuilt = 0
+    for r in results[n]:
+        if r["outcome"] != "ret":
+            continue
+        if has_kind(r, ("alloc", "construct")):
+            rebuilt += 1
+            continue
+        if not has_kind(r, ("assign",)):
+            # nothing copied: only acceptable when the range is empty and so is the array (count guard true)
+            pass
+        inplace += 1
+        true_conds = [repr(c) for c, v in r["pc"].items() if v]
+        count_ok = any("adl_distance" in c and "size() const" in c and "'cmp', 'eq'" in c for c in true_conds)
+        empty_range = any(re.search(r"array_iterator::operator==\(array_iterator const&\) const", c) and "('param', 1)" in c and "('param', 2)" in c for c in true_conds)
+        items_ok = any("extensions_t::operator==" in c and "operator*() const" in c and "('param', 1)" in c and "('param', 0)" in c for c in true_conds)
+        # the same guard written as one comparison of whole extents: this->extensions() == distance(first, last) * extensions(*first)
+        whole = any("extensions_t::operator==" in c and "adl_distance" in c and ("operator*() const" in c or D == 1) and "('param', 0)" in c for c in true_conds)
+        if whole:
+            continue
+        if not count_ok:
+            bad.append("an in-place path is not guarded by distance(first, last) == size()")
+        if D > 1 and not (empty_range or items_ok):
+            conds = sorted(typestate.short_t(c, 70) + ("" if v else " [false]") for c, v in r["pc"].items())
+            bad.append("an in-place path compares only the number of items, not the extents of the items with the extents of the array's rows "
+                       "(conditions: %s): items of another shape are copied over rows of the old shape" % "; ".join(conds)[:260])
+    if not inplace:
+        bad.append("no in-place path found")
+    if not rebuilt:
+        bad.append("no path builds new storage")
+    if bad:
+        rep.violated(key, "R06.assign", "%s (%s): %s" % (mod.ops[n]["body"], tagD, "; ".join(sorted(set(bad))[:2])), dict(op=n, problems=sorted(set(bad))))
+    else:
+        rep.ok(key + "#" + tagD, "R06.assign", None)
+
+
 def alloc_rules(rep, mod, results, tagD, pocca, pocma, pocs):
     """C10: who allocates, select_on_container_copy_construction, propagation traits, adoption of foreign buffers"""
     for n, traces in results.items():
